@@ -120,7 +120,17 @@ fn main() {
             // listener2 ADDRESS1 OUT ADDRESS2 FDS2 PIDKIND PRE SUF NAMES2: a second listener after the
             // environment has been changed (`-` = unset, `=value` = set)
             let out = args[3].clone();
+            // what is open from 3 up before the first listener is created (the descriptors handed over)
+            let is_open = |fd: i32| unsafe { libc::fcntl(fd, libc::F_GETFD) } >= 0;
+            let inherited: Vec<i32> = (3..64).filter(|fd| is_open(*fd)).collect();
             let first = world::listener_report(&args[2]);
+            // descriptors of the service's own, opened between the two listeners
+            let mut p1 = [0i32; 2];
+            let mut p2 = [0i32; 2];
+            unsafe {
+                libc::pipe(p1.as_mut_ptr());
+                libc::pipe(p2.as_mut_ptr());
+            }
             let set = |k: &str, v: &str| {
                 if let Some(val) = v.strip_prefix('=') {
                     std::env::set_var(k, val);
@@ -136,8 +146,23 @@ fn main() {
             }
             set("LISTEN_FDNAMES", &args[9]);
             let second = world::listener_report(&args[4]);
+            // creating a listener touches no descriptor but its own
+            let pipe_ok = |p: &[i32; 2], byte: u8| unsafe {
+                let mut b = [0u8; 1];
+                libc::write(p[1], [byte].as_ptr() as *const libc::c_void, 1) == 1
+                    && libc::read(p[0], b.as_mut_ptr() as *mut libc::c_void, 1) == 1
+                    && b[0] == byte
+            };
+            let lost: Vec<String> = inherited.iter().filter(|fd| !is_open(**fd)).map(|fd| fd.to_string()).collect();
+            let fds = if !lost.is_empty() {
+                format!("(fds closed-{})", lost.join("-"))
+            } else if !pipe_ok(&p1, 7) || !pipe_ok(&p2, 9) {
+                "(fds own-descriptors-damaged)".to_string()
+            } else {
+                "(fds ok)".to_string()
+            };
             let tmp = format!("{}.tmp", out);
-            std::fs::write(&tmp, format!("{}\n{}\n", first, second)).unwrap();
+            std::fs::write(&tmp, format!("{}\n{}\n{}\n", first, second, fds)).unwrap();
             std::fs::rename(&tmp, &out).unwrap();
         }
         "actclient" => {
